@@ -4,7 +4,7 @@
      popload  <arch> <type#> <mode> <pol> <prior> <doc>     -> OK <value> | EXC:<code>
      validate <arch> <class#> <max> <pol> <doc>             -> OK <value> | VAL <path>:<msg>,..;.. <state|-> | EXC:<code>
 
-   arch: json | mp | csv     mode: - | c | o | u     pol: two letters (mismatch, overflow), S = Skip, T = ThrowError
+   arch: json | mp | csv | xml     mode: - | c | o | u     pol: two letters (mismatch, overflow), S = Skip, T = ThrowError
    values and documents (one token, no spaces):
      n | t | f | i<decimal> | s<hex bytes> | [x,y,..] | {k:x,k:y,..}   with keys i<decimal> | s<hex bytes>   *)
 
@@ -88,7 +88,9 @@ let rec doc_of_tree (arch : string) (root : bool) (t : tree) : doc =
   | TMap l ->
     DMap (List.map (fun (k, v) ->
       ((match k with
-        | TInt i -> if arch = "mp" then DKInt (z_of_int i) else DKStr (str_of_string (string_of_int i))   (* text archives only have string keys *)
+        | TInt i -> if arch = "mp" then DKInt (z_of_int i)
+                    else if arch = "xml" then DKStr (str_of_string ("k" ^ string_of_int i))   (* element names cannot start with a digit: the encoder writes k<i> *)
+                    else DKStr (str_of_string (string_of_int i))   (* text archives only have string keys *)
         | TStr s -> DKStr (str_of_string s)
         | _ -> raise (Syntax "key")),
        doc_of_tree arch false v)) l)
@@ -118,9 +120,10 @@ let exc_name = function
   | EValidation _ -> "EXC:FailedValidation"
 
 let arch_of = function
-  | "json" -> { null_scope_is_mismatch = false; null_str = NullStrSkip; first_index = nat_of_int 1 }   (* fixes a88d81b, cde2a3b *)
-  | "mp" -> { null_scope_is_mismatch = false; null_str = NullStrSkip; first_index = nat_of_int 1 }
-  | "csv" -> { null_scope_is_mismatch = true; null_str = NullStrEmpty; first_index = nat_of_int 0 }
+  | "json" -> { null_scope_is_mismatch = false; null_str = NullStrSkip; first_index = nat_of_int 1; text_mode = None }   (* fixes a88d81b, cde2a3b *)
+  | "mp" -> { null_scope_is_mismatch = false; null_str = NullStrSkip; first_index = nat_of_int 1; text_mode = None }
+  | "csv" -> { null_scope_is_mismatch = true; null_str = NullStrEmpty; first_index = nat_of_int 0; text_mode = None }
+  | "xml" -> xml_arch            (* the instance the theorems name (coq/ArchModel.v) *)
   | _ -> raise (Syntax "arch")
 
 let pol_of (s : string) : pols =
